@@ -263,10 +263,13 @@ GATE_RULE = ("; gate enumeration on sources instrumented from the working tree: 
 
 prop(
     id="C02",
-    stages=[POOL_STAGE, GATE_STAGE],
+    stages=[POOL_STAGE, GATE_STAGE,
+            dict(name="c02runs", pkg="c02", test="TestC02Runs", access=[RUN_ACCESS, WORKERS_ACCESS, POOL_ACCESS], timeout_quick=300, timeout_thorough=3000)],
     rule="histories on the real TriggerPool driven directly (Start / Trigger / cancel / WaitForCompletion) with 1-32 workers and instant or sleeping bodies: "
          "(a) ticks of random sizes (0..10x workers) sent sequentially, cancel after the last one: requested = started + dropped exactly when the pool reports completion; "
          "(b) cancel racing with a ticking goroutine: requested within one tick of started + dropped; (c) limit-ended histories in which every tick waits until the previous one was taken: no iteration may be reported dropped; "
+         "(d) whole runs through the ticking goroutine of api.NewIterationWorker with a scripted, logged rate function that cancels the run after its last value, held or instant workers, "
+         "no limit / a far limit / a limit a few iterations beyond what the held workers can start: requested = started + dropped exactly; "
          "oracle = extracted predicate c02_ok; non-trivial = history with drops or ended by the limit; distinct = distinct observations" + GATE_RULE,
     assumptions=["sync/atomic sequentially consistent; sync.Cond and sync.Mutex semantics as modelled (Wait = release + park; Broadcast wakes all parked)",
                  "a tick counts as requested when its swap executes; from outside the pool a tick refused because triggering had stopped is indistinguishable from one that was never sent",
